@@ -261,7 +261,48 @@ probe (const char *path, const char *probefile)
       DirEntry *e = (DirEntry *) &reg->data[h->directory + (i - 1) * h->entry_blob_size];
       g_hash_table_insert (by_offset, GUINT_TO_POINTER (e->offset), GUINT_TO_POINTER (i));
     }
-  ns = g_irepository_load_typelib (NULL, reg, 0, &err);
+  {
+    /* history modes (DRV_LOOKUP_HISTORY): "pre" = every probe is asked at repository level ONCE
+     * BEFORE the typelib is registered (fills the negative caches; answers not reported),
+     * "lazy" = the typelib is registered with G_IREPOSITORY_LOAD_FLAG_LAZY; both can be given */
+    const char *hist = getenv ("DRV_LOOKUP_HISTORY");
+    if (hist && strstr (hist, "pre"))
+      {
+        FILE *pf = fopen (probefile, "r");
+        char *pl = NULL;
+        size_t pcap = 0;
+        ssize_t pgot;
+        const char *nsname = g_typelib_get_namespace (reg);
+        while (pf && (pgot = getline (&pl, &pcap, pf)) >= 0)
+          {
+            char *t1, *ps;
+            int dummy = 1;
+            long ignored = 0;
+            if (pgot > 0 && pl[pgot - 1] == '\n')
+              pl[--pgot] = 0;
+            if (pgot < 2 || !(t1 = strchr (pl + 2, '\t')))
+              continue;
+            ps = t1 + 1;
+            if (pl[0] == 'G' && valid_gtype_name (ps))
+              {
+                GType gt = g_type_from_name (ps);
+                if (gt == 0)
+                  gt = g_boxed_type_register_static (ps, dummy_copy, dummy_free);
+                if (gt != 0)
+                  GUARDED (ignored, repo_by_gtype (by_offset, reg, gt, &dummy));
+              }
+            else if (pl[0] == 'E')
+              GUARDED (ignored, repo_by_domain (by_offset, reg, g_quark_from_string (ps), &dummy));
+            else if (pl[0] == 'N' && g_irepository_is_registered (NULL, nsname, NULL))
+              GUARDED (ignored, repo_by_name (by_offset, reg, nsname, ps, &dummy));
+            (void) ignored;
+          }
+        if (pf)
+          fclose (pf);
+        free (pl);
+      }
+    ns = g_irepository_load_typelib (NULL, reg, (hist && strstr (hist, "lazy")) ? G_IREPOSITORY_LOAD_FLAG_LAZY : 0, &err);
+  }
   if (ns == NULL)
     {
       fprintf (stderr, "drv_lookup: g_irepository_load_typelib: %s\n", err ? err->message : "?");
